@@ -79,7 +79,7 @@ def main():
             guard="cryptocorrosion_verif",
             enable="RUSTFLAGS='--cfg cryptocorrosion_verif --cfg zerocopy_derive_union_into_bytes' (passed by ./check to every worker build; path dependencies on /repo's working tree)",
             baseline_off_cmd="cd /repo && cargo test --workspace --no-fail-fast --offline",
-            source_commits=["dd69e24", "8745fa8"],
+            source_commits=["dd69e24", "8745fa8", "9c99347"],
             add_only=True,
         ),
         engines=[dict(name="simworker", path="sim/", serves_properties=sorted(CHECKS),
